@@ -18,6 +18,8 @@ from common import Ctx
 from leanbuild import lean_obligations
 
 SPECIAL = [
+    "```\ncode\n````\n\n{% t %}\n- a\n- b\n{% /t %}\n", "~~~\nx\n~~~~~\n\n<!-- t -->\n| a | b |\n|---|---|\n<!-- /t -->\n", "> ```\n> q\n> `````\n\n{% t %}\n1. a\n{% /t %}\n",
+    "> ## H\n\n> q2\n", "> - a\n>\n> # h\n\n> next\n", "- a\n\n  # h\n\n- b\n",
     "x 'a \"b' c\" y\n", "He said \"yes\" \"no\" and 'a' 'b'.\n", "# ****x****\n", "**Title**\n===\n", "Title...\n=====\n", "---\nfoo: bar\n", "+\n", "- # h\n- b\n", "1. a\n1) b\n",
     "aaaa bbbb ---\n", "aaaa bbbb cccc dddd eeee ffff gggg hhhh * ...and that ends here\n", "- item {% t %} text {% /t %} more words here to wrap around the line\n",
     "> quote\n> - list\n>\n> more\n", "para one  \nhard break\n\npara\\\ntwo\n", "| a | b |\n|--|--|\n| `x\\|y` | z |\n", "[a]: http://x 'T'\n\n[a]\n",
@@ -185,6 +187,7 @@ def run(ctx: Ctx) -> None:
     if driver_ok:
         from props import c06
         ctx.guard("tie fullwrap", c06.tie_fullwrap, ctx.scale(5000, 60000))
+        ctx.guard("tie layers", c06.tie_layers)
         ctx.guard("tie render", rendertie.tie_render, ctx.scale(150, 2000))
     oracle(ctx, SPECIAL + rendertie.SPECIAL_DOCS, "special", 6)
     rng = ctx.rng
